@@ -85,6 +85,50 @@ def stmt_matches(node, op, under_dm=False):
     return False
 
 
+def _first_event(l, n):
+    """what happens first from node n on (silent steps skipped): (kind, opcode name, the non-string parameters)"""
+    try:
+        r = l.resolve(n)
+    except KeyError:
+        return None
+    if r is None:
+        return None
+    node = l.nodes[r]
+    if node[0] == "stop":
+        return ("stop",)
+    name = node[1][0]
+    # (strings: K01; `a == b`: K03; dungeon mode numbers may be constants)
+    ps = tuple(p for p in node[1][1] if p[0] in ("int", "const", "fp"))
+    if name in ("flag_SetDungeonMode", "Case", "BranchValue", "Branch"):
+        ps = ()
+    return (node[0], "Branch" if name == "BranchValue" else name, ps)
+
+
+class JumpTargets:
+    """For a Jump op of the input and a jump / continue / break statement of the emitted text: do both lead to the same thing?"""
+
+    def __init__(self, prog, ops):
+        self.ok = False
+        try:
+            self.ref = ref_lts(prog)
+            self.inp = ssb_lts(ops)
+            self.by_src = {m.get("src"): n for n, m in self.ref.meta.items() if m.get("src") is not None and self.ref.nodes.get(n, ("",))[0] == "tau"}
+            self.ok = True
+        except (RefError, MalformedSsb, KeyError, RecursionError):
+            pass
+
+    def same(self, stmt, off):
+        if not self.ok:
+            return None
+        n = self.by_src.get(id(stmt))
+        if n is None or off not in self.inp.nodes or self.inp.nodes[off][0] != "tau":
+            return None
+        a, b = _first_event(self.ref, n), _first_event(self.inp, off)
+        if a is None or b is None:
+            return None
+        return a == b, a, b
+
+
 def check_exps(acc, text, sm, ops, inp):
     """(b) and (c) for ExplorerScript output"""
     lines = text.split("\n")
@@ -103,6 +147,7 @@ def check_exps(acc, text, sm, ops, inp):
         hdr_at.setdefault(p, []).append(key)
     nodes = {id(n): n for n in pos.order}
     covered = set()
+    jt = None
     for off, m in sm:
         op = byoff.get(off)
         if op is None:
@@ -147,6 +192,19 @@ def check_exps(acc, text, sm, ops, inp):
             elif stmt_matches(n, op):
                 ok = True
                 covered.add(id(n))
+                if name == "Jump" and (n[0] == "jump" or n[0] == "ctrl"):
+                    # the statement printed for a Jump op leads where the op leads
+                    if jt is None:
+                        jt = JumpTargets(prog, ops)
+                    res = jt.same(n, off)
+                    if res is None:
+                        acc.count("jump_entries_target_not_comparable")
+                    else:
+                        acc.count("jump_entries_target_compared")
+                        if not res[0]:
+                            acc.violation(gsig("jump-entry-at-a-statement-that-leads-elsewhere"),
+                                          {"offset": off, "pos": p, "text_there": rest[:60], "statement_leads_to": repr(res[1])[:120], "op_leads_to": repr(res[2])[:120]}, inp)
+                            return
                 if n[0] == "with" and stmt_matches(n[3], op):
                     covered.add(id(n[3]))
         if not ok:
